@@ -60,7 +60,8 @@ def main():
         result['checks'] = {}
         for c in checks:
             t = time.time()
-            rc, o = sh(['/verif/check', c, '--tier', 'quick'], cwd='/verif', env={'VERIF_REPO': wt, 'VERIF_OUT': out})
+            home = os.environ.get('VERIF_HOME', '/verif')        # a frozen snapshot of /verif while the checks are being edited
+            rc, o = sh([home + '/check', c, '--tier', 'quick'], cwd=home, env={'VERIF_REPO': wt, 'VERIF_OUT': out})
             lines = [l for l in o.splitlines() if l.startswith(('VIOLATION', 'HARNESS-ERROR', 'KNOWN'))]
             first = ''
             ol = o.splitlines()
